@@ -398,6 +398,12 @@ def arith_corpus():
                 for opener, closer, prefix in (("$((", "))", "echo "), ("((", "))", ""), ("$((", "))", 'echo "é" ')):
                     out.append(prefix + opener + wide + gap + nxt + closer + "\n")
                     out.append(prefix + opener + nxt + gap + wide + gap + nxt + closer + "\n")
+    # empty expressions whose brackets stand on different lines (a line break, a continuation, blanks), alone and nested
+    for prefix, opener, closer, tail in (("", "((", "))", ""), ("echo ", "$((", "))", ""), ('echo "', "$((", "))", '"'), ("x=", "$((", "))", " y"),
+                                         ("{\n", "((", "))", "\n}"), ("if ", "((", "))", "; then a; fi"), ("echo $(", "((", "))", ")")):
+        for mid in ("", " ", "\n", " \n", "\n ", "\\\n", " \\\n", "\n\n", "\n\t\n"):
+            out.append(prefix + opener + mid + closer + tail + "\n")
+    out.append("cat <<E\n$((\\\n))\nE\n")
     return out
 
 
